@@ -167,8 +167,8 @@ CLAIMED = {
              "str/int/float printing and parsing round-trip; on top of those discrete_lookup_roundtrip, contextmatch_roundtrip / "
              "context_calibrator_roundtrip, default_calibrator_roundtrip / context_list_roundtrip, and the whole-encoding theorems "
              "int_encoding_roundtrip, float_encoding_roundtrip and binary_encoding_roundtrip (every attribute, the default and "
-             "all context calibrators, fixed / referenced / looked-up sizes with their adjustment) for encodings whose context "
-             "criteria are comparisons. The round trip of string encodings, parameter types, containers and "
+             "all context calibrators, fixed / referenced / looked-up sizes with their adjustment) boolexpr_roundtrip with the mutual anded_roundtrip / ored_roundtrip (groups "
+             "nested to any depth within the loader's recursion budget), for match criteria in all three forms. The round trip of string encodings, parameter types, containers and "
              "the equality of decoding is not a theorem: it is decided by the correspondence — definitions built both ways "
              "(loaded from independently written XML with units, empty descriptions, time types, unconditional inheritance; "
              "assembled from objects) go through write/load/write/load/write on model and library, every stage is compared, and "
